@@ -472,7 +472,16 @@ def rule_r13(ctx):
     c02.rule_r2_receivers(ctx, rid="C01.R13")
 
 
-RULES = [rule_r1, rule_r2, rule_r3, rule_r4, rule_r5, rule_r6, rule_r7, rule_r8, rule_r9, rule_r10, rule_r11, rule_r12, rule_r13]
+def rule_r14(ctx):
+    """Shared with C02.R1/R2/R4: 'the byte after one message starts the next' - the head search joins the carried bytes, the
+    consumed count is cut - len(carry), and the channel loop hands exactly the unconsumed suffix to a fresh parser."""
+    from . import c02
+    c02.rule_r1(ctx, rid="C01.R14")
+    c02.rule_r2_header(ctx, rid="C01.R14")
+    c02.rule_r4(ctx, rid="C01.R14")
+
+
+RULES = [rule_r1, rule_r2, rule_r3, rule_r4, rule_r5, rule_r6, rule_r7, rule_r8, rule_r9, rule_r10, rule_r11, rule_r12, rule_r13, rule_r14]
 
 from ..selftest import M, T, V  # noqa: E402
 
